@@ -14,7 +14,7 @@ import fonts, cases, sfnt
 
 PROP = 'C19'
 VARIANTS = ['asan-direct']
-RULE = ('Hypothesis: (font, text <= 32 with spaces, dir 0..7, enc, ppm) -> segment; break positions: any subset of the cluster boundaries; per line 1..3 justify calls with generated '
+RULE = ('Hypothesis: (font, text <= 32 with spaces, dir 0..7, enc, ppm incl. a hinted font) -> segment; 1 synthesised font in 3 has line-end contextuals (Silf flags bit 0, lbGID); break positions: any subset of the cluster boundaries; per line 1..3 justify calls with generated '
         '(width, flags, font, pFirst <= pLast on that line or NULL). Oracle: line chains unchanged (same slots, same order, prev inverse, line start has no prev), finite origins and width, '
         'gids unchanged when the font has no justification pass, no sanitizer report, every call returns. Non-trivial: >= 2 lines and a justify on a non-first line, or the text direction '
         'differs from the font direction. Known finding KF2 (direction mismatch with >= 2 lines) excluded by construction and counted. Distinct by case JSON.')
